@@ -163,15 +163,11 @@ Definition wrap (l : pstr) (r : res pstr) (rr : pstr) : res pstr :=
   match r with Ok t => Ok (l ++ t ++ rr) | Raise e => Raise e end.
 
 (* _image after the tuple unpacking *)
+(* D27 repaired: any title and an empty alt text are accepted; the title is not written *)
 Definition image_core (cat : list inline -> res pstr) (xs : list inline) (url title : pstr) : res pstr :=
-  match xs with
-  | [] => Raise EValue                                    (* "Figure missing a caption" *)
-  | _ => if is_prefix (s "fig:") title
-         then match cat xs with
-              | Ok cap => Ok (s "![" ++ cap ++ s "](" ++ url ++ s ")")
-              | Raise e => Raise e
-              end
-         else Raise EValue                                (* "Cannot deal with figure of type" *)
+  match cat xs with
+  | Ok cap => Ok (s "![" ++ cap ++ s "](" ++ url ++ s ")")
+  | Raise e => Raise e
   end.
 
 Fixpoint mdi (st : stack) (x : inline) {struct x} : res pstr :=
